@@ -325,3 +325,35 @@ func VerifC05_V1() {
 	wg.Wait()
 	verifReach("C05/v1/end")
 }
+
+// two executes back to back on one client (the read loop of the first call winds down while the second call
+// registers): each returns its own step's result
+func init() { verifRegister("VerifC05_BackToBack", VerifC05_BackToBack) }
+
+func VerifC05_BackToBack() {
+	calls := 0
+	sess, err := verifStartSession(verifPluginSchema(&calls))
+	verifAssert("C05/b2b/handshake", err == nil)
+	if err != nil {
+		return
+	}
+	verifReach("C05/b2b/started")
+	n1, n2 := nondetInt64("n1"), nondetInt64("n2")
+	check := func(tag string, res ExecutionResult, n int64) {
+		verifAssert("C05/b2b/"+tag+"/error-iff-input-rejected", vIff(res.Error == nil, n >= 0))
+		if res.Error == nil {
+			m, ok := res.OutputData.(map[any]any)
+			verifAssert("C05/b2b/"+tag+"/own-result", res.OutputID == "ok" && ok && verifWireInt(m["o"]) == n+1)
+		}
+	}
+	r1 := sess.client.Execute(schema.Input{RunID: "r1", ID: "inc", InputData: map[string]any{"n": n1}}, nil, nil)
+	check("first", r1, n1)
+	r2 := sess.client.Execute(schema.Input{RunID: "r2", ID: "inc", InputData: map[string]any{"n": n2}}, nil, nil)
+	check("second", r2, n2)
+	cerr := sess.client.Close()
+	verifAssert("C05/b2b/close", cerr == nil)
+	sess.srvDone.Wait()
+	verifObserve("ok1", r1.Error == nil)
+	verifObserve("ok2", r2.Error == nil)
+	verifReach("C05/b2b/end")
+}
